@@ -119,8 +119,16 @@ def tv_mul(a, b):
 def tv_udivmod(a, b, mod):
     if a.signed or b.signed:
         a2, b2 = shrink(a), shrink(b)
+        if a2.signed and not b2.signed and z3.is_bv_value(b2.bv):
+            d = b2.bv.as_long()
+            if d > 0 and d & (d - 1) == 0:
+                # floor division / modulus of a signed value by a literal power of two
+                k = d.bit_length() - 1
+                if mod:
+                    return TV(z3.Extract(k - 1, 0, a2.bv), False) if k else tv_const(0)
+                return TV(a2.bv >> k, True)
         if a2.signed or b2.signed:
-            raise ClauseError('// and % need unsigned operands')
+            raise ClauseError('// and % need unsigned operands (or a literal power-of-two divisor)')
         a, b = a2, b2
     x, y, _ = promote(a, b)
     if mod and b.pow2:
@@ -661,6 +669,13 @@ class Translator:
         if f == 'old':
             saved = self.old
             self.old = True
+            try:
+                return self.ev(n.args[0])
+            finally:
+                self.old = saved
+        if f == 'pre':      # value at the entry of the innermost loop whose invariant this is (before the havoc)
+            saved = self.old
+            self.old = 'pre'
             try:
                 return self.ev(n.args[0])
             finally:
